@@ -40,7 +40,7 @@ REQUIRED = dict(monitors=['chords', 'exp(-tau)', 'depth', 'depth>=bare', 'depth<
                          'contrib:FlatMie', 'contrib:LeeMie', 'nlayers:2', 'rerun:evaluated-after-change',
                          'fault:fired:temperature', 'fault:fired:chemistry', 'fault:fired:contribution', 'fault:fired:pressure',
                          'several:evaluation-judged', 'wn-dtype:i', 'components:judged', 'T-route:mixin', 'chemistry:makefree+file',
-                         'rerun:deepcopy', 'rerun:original-judged-after-its-copy-was-used', 'components:live-model-judged'])
+                         'rerun:deepcopy', 'rerun:original-judged-after-its-copy-was-used', 'components:live-model-judged', 'rerun:planet-radius-given-in-other-units'])
 TOL = 1e-10
 CUT = float(np.exp(-10.0))
 
@@ -377,6 +377,14 @@ def perturb_model(rng, model, max_changes=3):
             new = old * float(10 ** rng.uniform(-0.3, 0.3))
         model[n] = new
         out.append((n, old, new))
+    if rng.random() < 0.12 and hasattr(model.planet, 'set_planet_radius'):
+        # the planet's radius given in another unit through the public set_planet_radius(value, unit); the SI value it
+        # stands for is computed here from IAU 2015 nominal values (not from the package)
+        unit, si = [('Rjup', 7.1492e7), ('Rearth', 6.3781e6), ('earthRad', 6.3781e6), ('km', 1e3), ('m', 1.0), ('Rsun', 6.957e8)][rng.integers(0, 6)]
+        old_m = float(model.planet.fullRadius)
+        target = old_m * float(rng.uniform(0.95, 1.1))
+        model.planet.set_planet_radius(target / si, unit)
+        out.append(('planet radius given in ' + unit, old_m, target))
     if rng.random() < 0.15 and hasattr(type(model.star), 'temperature'):
         # the star has no fitting parameter of its own; its temperature has a public setter
         old = float(model.star.temperature)
@@ -445,6 +453,10 @@ def wl_rerun(ctx, rng):
         s2['ret_trans'] = np.array(trans, dtype=float)
         ctx.observe('rerun:evaluated-after-change')
         oracle(ctx, s2, spec)
+        for nm_, _, tgt_ in changes:
+            if nm_.startswith('planet radius given in '):
+                ctx.observe('rerun:planet-radius-given-in-other-units')
+                ctx.close('planet-radius-is-what-was-given', s2['Rp'], tgt_, 2e-5, unit=nm_.split()[-1])
         led.settle('evaluation %d of the same model' % (k + 1))
         for a_, l_ in zip((wn, depth, trans), ('grid', 'depth', 'transmittance')):
             led.keep(a_, '%s[%d]' % (l_, k + 1))
